@@ -7,7 +7,8 @@ A session is a JSON-able list of ops (this is also the replay format):
     ["datastore", name, storage]            a further Datastore ("main" = Impl.ds always exists); storage memory | sqlite
     ["create", ds, bucket id, events]       events = [[offset from 2020-01-01T00:00Z in us, duration in us, data], ...]
     ["delete", ds, bucket id]
-    ["query", ds, text, expectation]        expectation = {} | {"names": [bucket ids]} (value when all of them
+    ["query", ds, text, expectation(, [query name, start, end of the query period as offsets in us])]
+                                            default name / period: "q-name", 2020-01-01Z .. 2020-01-02Z; expectation = {} | {"names": [bucket ids]} (value when all of them
                                             exist in ds at that point, else FunctionError - computed from the
                                             ops, never asked of the tree under test) | {"class": c} | {"value": canon}
 
@@ -103,7 +104,7 @@ class Session:
             return None
         assert op[0] == "query", op
         want = self.expectation(op)
-        r = impl.run(op[2], ds=ds)
+        r = impl.run(op[2], ds=ds, ctx=op[4] if len(op) > 4 else None)
         return r, ds, impl.buckets_of(ds), want
 
     def holds(self, r, want):
